@@ -492,7 +492,7 @@ func (t *Term) write(b *strings.Builder) {
 		case t.SLit != nil:
 			b.WriteString(smtString(*t.SLit))
 		default:
-			if strings.HasPrefix(t.Name, "(") {
+			if strings.HasPrefix(t.Name, "(") || t.S.K == SReal && len(t.Name) > 0 && (t.Name[0] >= '0' && t.Name[0] <= '9') {
 				b.WriteString(t.Name)
 			} else {
 				b.WriteString(quoteSym(t.Name))
